@@ -10,8 +10,8 @@ EXTENDS Integers, Sequences, FiniteSets, TraceBase
 
 CONSTANTS N, Procs, RelaxEmpty, Prefill, Mode
 
-VARIABLES cands, pend, cur
-vars == <<cands, pend, cur>>
+VARIABLES cands, pend, cur, resv   \* resv: reserved-and-unresolved slots (they take capacity)
+vars == <<cands, pend, cur, resv>>
 tvars == <<vars, l, bad>>
 
 LQ == INSTANCE LinQueue WITH LqThreads <- Procs, LqCap <- N, LqRelaxEmpty <- RelaxEmpty, LqMode <- Mode
@@ -19,30 +19,45 @@ LQ == INSTANCE LinQueue WITH LqThreads <- Procs, LqCap <- N, LqRelaxEmpty <- Rel
 Cands0 == IF Prefill THEN {[q |-> [i \in 1..N |-> i - 1], done |-> [t \in Procs |-> LQ!NotYet]]} ELSE LQ!LqInit0
 NoCur == [p \in Procs |-> "none"]
 
-TraceInit == cands = Cands0 /\ pend = LQ!LqNoPend /\ cur = NoCur /\ TBInit
+TraceInit == cands = Cands0 /\ pend = LQ!LqNoPend /\ cur = NoCur /\ resv = 0 /\ TBInit
 
 OpName(x) == IF x \in {"alloc", "pop", "dequeue", "poll"} THEN "deq"
-             ELSE IF x \in {"dealloc_id", "dealloc_ref", "dealloc_last", "push", "enqueue", "send", "send_with"} THEN "enq" ELSE x
+             ELSE IF x \in {"dealloc_id", "dealloc_ref", "dealloc_last", "push", "enqueue", "send", "send_with", "pub_idx"} THEN "enq" ELSE x
 
-TReset == Ev.k = "reset" /\ cands' = Cands0 /\ pend' = LQ!LqNoPend /\ cur' = NoCur
+TReset == Ev.k = "reset" /\ cands' = Cands0 /\ pend' = LQ!LqNoPend /\ cur' = NoCur /\ resv' = 0
 
 TCall == /\ Ev.k = "call" /\ ~IsNopCall
          /\ LET o == OpName(Ev.x.op) IN
             IF o \in {"enq", "deq"}
-            THEN /\ cands' = LQ!LqCall(cands, pend, P, [op |-> o, v |-> Ev.x.v], 0)
+            THEN /\ cands' = LQ!LqCall(cands, pend, P, [op |-> o, v |-> Ev.x.v], resv)
                  /\ pend' = [pend EXCEPT ![P] = [op |-> o, v |-> Ev.x.v]]
-                 /\ cur' = [cur EXCEPT ![P] = o]
+                 /\ cur' = [cur EXCEPT ![P] = IF Ev.x.op = "pub_idx" THEN "pub" ELSE o]
+                 /\ UNCHANGED resv
             ELSE UNCHANGED vars
 
 TRet == /\ Ev.k = "ret" /\ ~IsNopRet
         /\ IF cur[P] = "enq"
-           THEN /\ cands' = LQ!LqRet(cands, pend, P, [ok |-> Ev.x.ok, v |-> 0], 0)
+           THEN /\ cands' = LQ!LqRet(cands, pend, P, [ok |-> Ev.x.ok, v |-> 0], resv)
                 /\ pend' = [pend EXCEPT ![P] = LQ!NoOp]
                 /\ cur' = [cur EXCEPT ![P] = "none"]
+                /\ UNCHANGED resv
+           ELSE IF cur[P] = "pub"
+           THEN /\ cands' = IF Ev.x.ok THEN LQ!LqRet(cands, pend, P, [ok |-> TRUE, v |-> 0], resv) ELSE LQ!LqRetCancel(cands, pend, P, resv)
+                /\ pend' = [pend EXCEPT ![P] = LQ!NoOp]
+                /\ cur' = [cur EXCEPT ![P] = "none"]
+                /\ resv' = IF Ev.x.ok THEN resv - 1 ELSE resv
            ELSE IF cur[P] = "deq"
-           THEN /\ cands' = LQ!LqRet(cands, pend, P, [ok |-> Ev.x.ok, v |-> IF Ev.x.ok THEN Ev.x.v ELSE 0], 0)
+           THEN /\ cands' = LQ!LqRet(cands, pend, P, [ok |-> Ev.x.ok, v |-> IF Ev.x.ok THEN Ev.x.v ELSE 0], resv)
                 /\ pend' = [pend EXCEPT ![P] = LQ!NoOp]
                 /\ cur' = [cur EXCEPT ![P] = "none"]
+                /\ UNCHANGED resv
+           ELSE IF Ev.fn = "reserve" /\ Ev.x.ok
+           THEN /\ resv' = resv + 1
+                /\ cands' = LQ!LqClose(cands, pend, resv + 1)
+                /\ UNCHANGED <<pend, cur>>
+           ELSE IF Ev.fn = "unleak_idx" /\ Ev.x.ok
+           THEN /\ resv' = resv - 1
+                /\ UNCHANGED <<cands, pend, cur>>
            ELSE UNCHANGED vars
 
 \* a thread that panicked never returns: its operation stays pending
@@ -51,7 +66,7 @@ TOther == Ev.k \notin {"reset", "call", "ret", "final"} /\ UNCHANGED vars
 
 AllIdle == \A p \in Procs : cur[p] = "none"
 TFinal == /\ Ev.k = "final"
-          /\ UNCHANGED <<pend, cur>>
+          /\ UNCHANGED <<pend, cur, resv>>
           /\ cands' = IF AllIdle /\ ~Ev.x.hard THEN {c \in cands : LQ!LqAgrees({c}, SeqOf(Ev.x.drained))} ELSE cands
 
 BadOf == IF cands = {} THEN "InvLinearizable" ELSE ""
